@@ -304,3 +304,12 @@ func (g *Gen) sourceLine(pos token.Pos) string {
 	}
 	return ""
 }
+
+func (g *Gen) pkgNamed(name string) *packages.Package {
+	for _, p := range g.allPkgs {
+		if p.Types != nil && p.Types.Name() == name {
+			return p
+		}
+	}
+	return nil
+}
